@@ -440,6 +440,7 @@ func finish(w *world, total int) *runObs {
 		}
 		if tot != last {
 			last, lastChange = tot, time.Now()
+			dl = time.Now().Add(finishWait) // only a run that stopped moving is judged
 		} else if stuckOK && time.Since(lastChange) > 80*time.Millisecond {
 			break
 		}
